@@ -265,8 +265,8 @@ func c06StepDomain() (b uint8, L uint8, I uint64) {
 	if L > 48 || (m != 5 && L == 48) || (m == 3 && L <= b+3) || (m == 4 && L <= (b+48)/2) {
 		vAssume(false) // out of range or already covered by another case
 	}
-	I = c06Index48(vU64("Ihi"), b)       // any 48-bit index with exactly b trailing zeros
-	vAssume(c06BitLenSym(c06Top-I) == L) // L values stored after 2^48-1-I secrets
+	I = c06Index48(vU64("Ihi"), b)     // any 48-bit index with exactly b trailing zeros
+	vAssume(c06HasBitLen(c06Top-I, L)) // L values stored after 2^48-1-I secrets
 	return b, L, I
 }
 
@@ -282,18 +282,16 @@ func c06Index48(hi uint64, z uint8) uint64 {
 	return c06WithCtz(hi&(uint64(1)<<(47-z)-1), z)
 }
 
-// c06BitLenSym is c06BitLen without data-dependent control flow (the argument
-// is symbolic): number of k in 0..47 with n >= 2^k.
-func c06BitLenSym(n uint64) uint8 {
-	var l uint8
-	for k := uint(0); k < 48; k++ {
-		var one uint8
-		if n >= uint64(1)<<k {
-			one = 1
-		}
-		l += one
+// c06HasBitLen: l is the number of bits needed to write n, i.e.
+// 2^(l-1) <= n < 2^l (l = 0 iff n = 0). No data-dependent control flow on n.
+func c06HasBitLen(n uint64, l uint8) bool {
+	if l == 0 {
+		return n == 0
 	}
-	return l
+	if l > 64 {
+		return false
+	}
+	return n>>(l-1) == 1
 }
 
 func VerifC06Step() {
@@ -337,7 +335,7 @@ func VerifC06Step() {
 			vAssert(st.buckets[i] == pre.buckets[i], "step: the other buckets are unchanged")
 		}
 	}
-	vAssert(st.lenBuckets == c06BitLenSym(c06Top-I+1), "step: number of stored values is bitlen(received)")
+	vAssert(c06HasBitLen(c06Top-I+1, st.lenBuckets), "step: number of stored values is bitlen(received)")
 	vAssert(st.lenBuckets <= 49, "step: at most 49 stored values")
 
 	// across serialisation
